@@ -15,6 +15,11 @@ DT = {"f32": torch.float32, "f64": torch.float64, "c128": torch.complex128}
 HERMITIAN_SPECTRA = ("spd", "indef", "few_spd")
 NONHERMITIAN_SPECTRA = ("normal_rhp", "general", "few_normal")
 SPECTRA = HERMITIAN_SPECTRA + NONHERMITIAN_SPECTRA
+# complex only, used by C01: normal matrix with eigenvalues exp(i theta) (1 + rho z) / (1 - rho), z in the unit disc,
+# rho = (kappa-1)/(kappa+1): a disc of condition number <= kappa anywhere around the origin (not part of SPECTRA, which C02 shares)
+ROTATED_SPECTRA = ("rot_disc", "few_rot_disc")
+# spectra whose field of values lies in a half-plane  Re(exp(-i theta) z) >= 1  (theta = 0 unless rotated)
+HALFPLANE_SPECTRA = ("spd", "few_spd", "normal_rhp", "few_normal") + ROTATED_SPECTRA
 
 # operator kinds realising a dense matrix A (see make_operator)
 LEAF_KINDS = ("dense", "mv", "mv_rmv", "mv_mm", "all")
@@ -45,10 +50,25 @@ def _logspaced(g, batch, n, kappa):
     return torch.exp(u * math.log(kappa))
 
 
-def spectrum_matrix(g, batch, n, dtype, kind, kappa):
+def spectrum_matrix(g, batch, n, dtype, kind, kappa, theta=0.0):
     """(*batch, n, n) matrix of the given spectral kind in float64/complex128 (cast by the caller).
-    spd / indef / few_spd are exactly Hermitian (symmetrised)."""
+    spd / indef / few_spd are exactly Hermitian (symmetrised). theta (radians) only for the rotated kinds."""
     wd = cdtype(dtype)
+    if kind in ROTATED_SPECTRA:
+        assert wd.is_complex
+        ndist = n if kind == "rot_disc" else max(1, n - 2)
+        rho = (kappa - 1.0) / (kappa + 1.0)
+        rad = torch.rand((*batch, ndist), generator=g, dtype=torch.float64).sqrt()
+        ph = torch.rand((*batch, ndist), generator=g, dtype=torch.float64) * (2 * math.pi)
+        if ndist >= 2:          # the extremes of the modulus are attained: cond = kappa
+            rad[..., 0], ph[..., 0] = 1.0, 0.0
+            rad[..., -1], ph[..., -1] = 1.0, math.pi
+        vals = (1.0 + rho * torch.polar(rad, ph)) / (1.0 - rho) * complex(math.cos(theta), math.sin(theta))
+        idx = torch.randint(0, ndist, (n,), generator=g)
+        idx[:ndist] = torch.arange(ndist)
+        lam = vals[..., idx]
+        Q = rand_unitary(g, batch, n, dtype)
+        return torch.matmul(Q * lam.unsqueeze(-2), H(Q))
     if kind in ("spd", "indef", "few_spd"):
         lam = _logspaced(g, batch, n, kappa)
         if kind == "indef" and n >= 2:
@@ -217,6 +237,97 @@ def make_operator(kind, A, herm_flag, g, counter, leaf="dense"):
             return torch.matmul(Amat, x) + c
         return jac(f, params=(x0, A), idxs=0)
     raise ValueError(kind)
+
+
+# ------------------------------------------------------------------ expression trees of operators (C01)
+#
+# A tree is a nested list (JSON):  ["leaf", kind] | ["adj", t] | ["scale", ci, side, t] | [op, swap, t1, t2] with op in
+# add / sub / matmul.  make_tree(tree, T, ...) returns an operator whose dense matrix is T (up to rounding):
+#   adj     (tree of T^H).H
+#   scale   c * (tree of T/c)  or  (tree of T/c) * c
+#   add     (tree of T-P) + (tree of P)         swap: (tree of P) + (tree of T-P)
+#   sub     (tree of T+P) - (tree of P)         swap: (tree of P) - (tree of P-T)
+#   matmul  (tree of P) @ (tree of P^-1 T)      swap: (tree of T P^-1) @ (tree of P)      P = 1.5 * unitary
+# with P a constant unbatched random matrix (Hermitian when the node is flagged Hermitian, so that the flag survives
+# xitorch's composition rules; a product is flagged through matmul's documented is_hermitian argument).
+
+TREE_LEAVES = LEAF_KINDS + ("jac",)
+SCALES = (2, -0.5, 3.0, -1)
+
+
+@st.composite
+def tree_st(draw, depth=2):
+    if depth == 0:
+        return ["leaf", draw(st.sampled_from(TREE_LEAVES))]
+    op = draw(st.sampled_from(["leaf", "adj", "adj", "scale", "add", "sub", "sub", "matmul"] if depth < 2 else
+                              ["adj", "adj", "scale", "add", "sub", "matmul"]))
+    if op == "leaf":
+        return ["leaf", draw(st.sampled_from(TREE_LEAVES))]
+    if op == "adj":
+        return ["adj", draw(tree_st(depth - 1))]
+    if op == "scale":
+        return ["scale", draw(st.integers(0, len(SCALES) - 1)), draw(st.integers(0, 1)), draw(tree_st(depth - 1))]
+    return [op, draw(st.integers(0, 1)), draw(tree_st(depth - 1)), draw(tree_st(depth - 1))]
+
+
+def tree_signature(tree):
+    """shape of the tree without its leaves, e.g. 'adj(sub)', 'matmul(scale,leaf)'"""
+    if tree[0] == "leaf":
+        return "leaf"
+    subs = [t for t in tree[1:] if isinstance(t, list)]
+    if all(t[0] == "leaf" for t in subs):
+        return tree[0]
+    return tree[0] + "(" + ",".join(tree_signature(t) for t in subs) + ")"
+
+
+def tree_leaves(tree):
+    if tree[0] == "leaf":
+        return [tree[1]]
+    return [k for t in tree[1:] if isinstance(t, list) for k in tree_leaves(t)]
+
+
+def make_tree(tree, T, herm_flag, g, counter):
+    import xitorch
+    op = tree[0]
+    n = T.shape[-1]
+    dt = T.dtype
+    if op == "leaf":
+        kind = tree[1]
+        if kind == "jac":
+            if dt.is_complex or T.ndim > 2:
+                kind = "mv_rmv"
+            else:
+                return make_operator("jac", T, False, g, counter)
+        return make_leaf(kind, T, herm_flag, counter)
+    if op == "adj":
+        return make_tree(tree[1], H(T), herm_flag, g, counter).H
+    if op == "scale":
+        c = SCALES[tree[1]]
+        sub = make_tree(tree[3], T / c, herm_flag, g, counter)
+        return sub * c if tree[2] else c * sub
+    swap = tree[1]
+    if op in ("add", "sub"):
+        P = gen.randn(g, (n, n), dt)
+        if herm_flag:
+            P = 0.5 * (P + H(P))
+        if op == "add":
+            a, b = make_tree(tree[2], T - P, herm_flag, g, counter), make_tree(tree[3], P, herm_flag, g, counter)
+            return b + a if swap else a + b
+        if swap:
+            return make_tree(tree[2], P, herm_flag, g, counter) - make_tree(tree[3], P - T, herm_flag, g, counter)
+        return make_tree(tree[2], T + P, herm_flag, g, counter) - make_tree(tree[3], P, herm_flag, g, counter)
+    if op == "matmul":
+        P = rand_unitary(g, (), n, dt).to(dt) * 1.5
+        Pinv = H(P) / 2.25
+        if swap:
+            a, b = make_tree(tree[2], torch.matmul(T, Pinv), False, g, counter), make_tree(tree[3], P, False, g, counter)
+        else:
+            a, b = make_tree(tree[2], P, False, g, counter), make_tree(tree[3], torch.matmul(Pinv, T), False, g, counter)
+        # (two dense operands are folded into one matrix, whose Hermiticity xitorch verifies elementwise: a product is
+        # Hermitian only up to rounding, so the flag is given to genuinely composite products only)
+        folded = isinstance(a, xitorch.LinearOperator) and type(a).__name__ == type(b).__name__ == "MatrixLinearOperator"
+        return a.matmul(b, is_hermitian=True) if (herm_flag and not folded) else a.matmul(b)
+    raise ValueError(op)
 
 
 # ------------------------------------------------------------------ broadcast patterns
